@@ -1,9 +1,9 @@
-(* finite table, part 1 of 4: lookup_order of {one skypix dimension} + every closed set of non-skypix dimensions *)
+(* finite table: lookup_order of {one skypix dimension at the end of a pixelization system} + every closed set of non-skypix dimensions *)
 From Coq Require Import String List Bool Arith.
 From V Require Import Model.Universe Model.Group Model.GroupX Gen.Universes Proofs.GroupProofs Proofs.GroupProofsShipped Proofs.GroupProofsXS.
 Import ListNotations.
 Open Scope string_scope.
 Open Scope list_scope.
 
-Lemma skypix_lookup_part0 : skypix_lookup_okb u_current (sky_part 0) cl_current = true.
+Lemma skypix_lookup_sample : skypix_lookup_okb u_current sky_sample_current cl_current = true.
 Proof. vm_compute. reflexivity. Qed.
